@@ -16,6 +16,7 @@ class FakeSocket:
         self.closed = False
         self.connected = None
         self.sent = bytearray()      # everything the host sent
+        self.send_calls = []
         self.recv_sizes = []         # sizes actually returned (for the evidence)
         net.sockets.append(self)
 
@@ -26,7 +27,11 @@ class FakeSocket:
 
     def send(self, data):
         data = bytes(data)
+        # a system call: other threads may run before and after it (never in the middle: the kernel appends one send()
+        # of a small buffer to the stream atomically)
+        kernel.SIM.yield_point('send')
         self.sent += data
+        self.send_calls.append(len(data))
         if self.net.on_send is not None:
             self.net.on_send(self, data)
         return len(data)
